@@ -30,7 +30,7 @@ PROPS = ["C01", "C03", "C04", "C05", "C06", "C08", "C12", "C13", "C14", "C15", "
 
 # (runs, wall cap seconds) per tier; a batch ends at whichever comes first.
 TIERS = {
-    "quick": {"default": (1500, 75), "C15": (160, 80), "C19": (120, 80), "C16": (900, 75), "C13": (1500, 80)},
+    "quick": {"default": (1500, 75), "C20": (16000, 90), "C06": (12000, 80), "C08": (4000, 90), "C15": (1000, 100), "C19": (120, 80), "C16": (900, 75), "C13": (1500, 80)},
     "thorough": {"default": (60000, 1200), "C15": (6000, 1500), "C19": (4000, 1200)},
 }
 CHUNK = {"default": 12, "C15": 2, "C19": 4}
@@ -173,6 +173,7 @@ def verify_fresh(prop, path, sig):
 # --------------------------------------------------------------------- batch
 def batch(prop, tier, batch_seed, runs=None, wall=None, workers=None, write_evidence=True, quiet=False):
     t0 = time.time()
+    batch._n_min = 0
     m = load_machine(prop)
     tcfg = TIERS[tier]
     d_runs, d_wall = tcfg.get(prop, tcfg["default"])
@@ -251,7 +252,9 @@ def batch(prop, tier, batch_seed, runs=None, wall=None, workers=None, write_evid
         r, v = unknown_items[0]
         trace = r["trace"]
         mini = None
-        if not os.environ.get("BIOSIM_NO_MINIMIZE"):
+        n_min = getattr(batch, "_n_min", 0)
+        if not os.environ.get("BIOSIM_NO_MINIMIZE") and n_min < 3:
+            batch._n_min = n_min + 1
             try:
                 with cf.ProcessPoolExecutor(max_workers=1, mp_context=ctx, initializer=worker_init) as ex1:
                     mini = ex1.submit(minimize_task, prop, trace, list(sig)).result(timeout=600)
